@@ -12,11 +12,12 @@ RULE = ("one case = (adaptive method or Richardson wrapper, problem class+seed, 
         "recorded states are compared with the exact solution in units of (atol+rtol|y|) (contractive problems: amplification ~1); the "
         "step() wrapper logs every attempt and consecutive attempts from the same state must strictly shrink after a controller "
         "rejection; non-trivial = >=5 recorded steps; distinct by (method, problem, tol decade, direction, dt class)")
-ASSUMPTIONS = ["'smooth' is relative to the step: steps more than twice as long as the width of the Gaussian feature they run into (bump problems) are not judged",
+ASSUMPTIONS = ["fast-decaying solutions under purely relative tolerances are judged step by step (local error in units of atol + rtol*max(|y_k|,|y_k+1|)), not globally",
+               "'smooth' is relative to the step: steps more than twice as long as the width of the Gaussian feature they run into (bump problems) are not judged",
                "problems are contractive along the direction of integration (logarithmic norm <= 0), so the problem's own amplification is ~1",
                "tolerance unit per component: atol + rtol*max(|y_i|, 0.1*max_j|y_j|) (a component passing through zero is judged on the scale of the solution)"]
-FLOORS = {"quick": {"runs_checked": 45, "local_steps_checked": 1000, "rejected_attempts_forward": 30, "rejected_attempts_backward": 30, "blowup_runs": 6, "blowup_raised": 1, "closing_step_rejected": 8},
-          "thorough": {"runs_checked": 400, "local_steps_checked": 10000, "rejected_attempts_forward": 300, "rejected_attempts_backward": 300, "blowup_runs": 25, "blowup_raised": 5, "closing_step_rejected": 30}}
+FLOORS = {"quick": {"runs_checked": 45, "local_steps_checked": 1000, "rejected_attempts_forward": 30, "rejected_attempts_backward": 30, "blowup_runs": 6, "blowup_raised": 1, "closing_step_rejected": 8, "decaying_runs_judged_locally": 12},
+          "thorough": {"runs_checked": 400, "local_steps_checked": 10000, "rejected_attempts_forward": 300, "rejected_attempts_backward": 300, "blowup_runs": 25, "blowup_raised": 5, "closing_step_rejected": 30, "decaying_runs_judged_locally": 12}}
 K_TOL = 200.0
 K_GLOB = 20.0
 K_LOC = 50.0
@@ -94,6 +95,15 @@ def gen_cases(tier, seed):
                 t0 = float(rng.uniform(-2, 2))
                 cases.append(dict(kind="tol", method=name, rich=0, problem=pb, rate=rate, dim=3, rtol=rt, atol=rt * 0.1, t0=t0, tf=t0 + d * span,
                                   dt=float(rng.choice([4.0, 20.0])) * span, dtfrac=20.0, pseed=int(rng.integers(1 << 30)), cost=4))
+    # purely relative tolerances (atol far below rtol*|y|) on solutions whose magnitude decays by a large factor per step: the error scale of a step
+    # must be the scale of THAT step, not a memory of earlier, larger states
+    for name in [n for n in adaptive if M[n]["explicit"]]:
+        for d in (1, -1):
+            rt = float(rng.choice([1e-3, 1e-4, 1e-5]))
+            span = float(rng.uniform(2.0, 4.0))
+            t0 = float(rng.uniform(-2, 2))
+            cases.append(dict(kind="tol", method=name, rich=0, problem="lin", rate=float(rng.uniform(3.0, 6.0)), dim=2, rtol=rt, atol=1e-13, t0=t0, tf=t0 + d * span,
+                              dt=0.05 * span, dtfrac=0.05, decaying=True, pseed=int(rng.integers(1 << 30)), cost=4))
     # solution magnitudes far from 1 with atol and rtol far apart (atol vs rtol*|y| must be told apart), and problems that are quiet
     # until a sharp feature just before the end (the closing step of the call is rejected and retried)
     for name in adaptive:
@@ -303,13 +313,19 @@ def run_case(spec):
     fam = "rich" if spec["rich"] else info["family"]
     rec.worst("global_tol_ratio_" + fam, worst)
     rec.worst("global_tol_ratio_per_memory_step_" + fam, worst_norm)
-    if worst_norm > K_GLOB:
+    if spec.get("decaying"):
+        # measured against the DECAYED |y| a contractive problem is not "amplification ~1" (absolute errors decay with the slowest mode while the
+        # tolerance unit shrinks with the solution): these runs are judged by the local clause below, in units of the step's own scale
+        rec.bump("decaying_runs_judged_locally")
+    elif worst_norm > K_GLOB:
         rec.violate("global_error", "recorded_state_error_exceeds_tolerance_bound", feats, ratio_per_memory_step=worst_norm, ratio=worst, at=wk, t=float(t[wk]),
                     rows=len(t), rtol=spec["rtol"], atol=spec["atol"])
     # (ii) local: error of sampled accepted steps against the exact local flow from the recorded previous state
     wl, wlk = 0.0, 0
     if spec["rtol"] >= 1e-9 and len(t) > 1:
         idx = sorted(set(list(range(min(12, len(t) - 1))) + [int(i) for i in np.linspace(0, len(t) - 2, 60)]))
+        if spec.get("decaying"):
+            idx = list(range(len(t) - 1))
         for k in idx:
             if k in unresolved:
                 continue
